@@ -436,4 +436,27 @@ theorem deliver_comments (T : Table) (s : PState) (tok : Tok) (s' : PState) (h :
     | crash w => rw [hst2] at h; simp at h
     | rewind s2 => rw [hst2] at h; simp at h
 
+/-- `bytes.strip()` leaves alone a text whose first and last bytes are not white space -/
+theorem strip_keeps (b : Bytes) (hne : b ≠ []) (hf : B.isWs (b.head hne) = false) (hl : B.isWs (b.getLast hne) = false) :
+    stripWs b = b := by
+  have keep : ∀ (c : UInt8) (l : Bytes), B.isWs c = false → (c :: l).dropWhile B.isWs = c :: l := by
+    intro c l h; simp [List.dropWhile, h]
+  unfold stripWs
+  have h1 : b.dropWhile B.isWs = b := by
+    cases b with
+    | nil => exact absurd rfl hne
+    | cons c cs => exact keep c cs hf
+  rw [h1]
+  have hr : b.reverse ≠ [] := by simpa using hne
+  have h2 : b.reverse.dropWhile B.isWs = b.reverse := by
+    cases hb : b.reverse with
+    | nil => exact absurd hb hr
+    | cons c cs =>
+      have : c = b.getLast hne := by
+        have := List.head_reverse (l := b) (by simpa using hne)
+        simp [hb] at this
+        exact this
+      exact keep c cs (this ▸ hl)
+  rw [h2, List.reverse_reverse]
+
 end Comments
